@@ -451,6 +451,24 @@ neu('N5-gaussian-lower-factor-column-contraction', ALLP, [
 # ---- R-NONE positive examples: a flipped None test sends None into arithmetic on the branch no test takes
 mut('C08-gaussian-saliency-none-flipped', 'C08', D + 'gaussian.py', "        if saliency is None:\n            covariance = np.einsum(operation, difference, difference)", "        if saliency is not None:\n            covariance = np.einsum(operation, difference, difference)", expect='R-NONE', props=['C08'])
 mut('C01-difference-plus-mean', 'C07', D + 'gaussian.py', "        difference = y - self.mean[..., None, :]", "        difference = y + self.mean[..., None, :]", expect='difference', props=['C07', 'C03'])
+# ---- rules added after the second half of seed round 4: one mutant and one neutral respelling each
+PA = 'pb_bss/permutation_alignment.py'
+mut('C14-greedy-np-copy-keeps-layout', 'C14', PA, "        score_matrix: np.ndarray = score_matrix.copy()\n", "        score_matrix: np.ndarray = np.copy(score_matrix)\n", expect='view-contiguous', props=['C14', 'C15'],
+    note="np.copy defaults to order='K': the transposed euclidean score matrix stays Fortran ordered and the reshape copies")
+neu('N7-greedy-copy-order-c', ALLP, [(PA, "        score_matrix: np.ndarray = score_matrix.copy()\n", "        score_matrix = np.array(score_matrix, order='C', copy=True)\n", False)])
+mut('C15-cos-floor-1e-10', 'C15', PA, "    tiny = np.finfo(norm.dtype).tiny\n    return a / np.maximum(norm, tiny)", "    return a / np.maximum(norm, 1e-10)", expect='scale-free', props=['C15'])
+mut('C15-cos-plus-eps', 'C15', PA, "    tiny = np.finfo(norm.dtype).tiny\n    return a / np.maximum(norm, tiny)", "    tiny = np.finfo(norm.dtype).tiny\n    return a / (norm + tiny)", expect='scale-free', props=['C15'])
+neu('N7-cos-where-floor', ALLP, [(PA, "    return a / np.maximum(norm, tiny)", "    return a / np.where(norm != 0, norm, tiny)", False)])
+MM = 'pb_bss/extraction/mask_module.py'
+mut('C18-eps-below-float32', 'C18', MM, "EPS = 1e-18\n", "EPS = 1e-40\n", expect='eps-default-float32', props=['C18'])
+neu('N7-eps-spelled-differently', ALLP, [(MM, "EPS = 1e-18\n", "EPS = 1.0e-18\n", False)])
+neu('N7-eps-float32-tiny', ALLP, [(MM, "EPS = 1e-18\n", "EPS = float(np.finfo(np.float32).tiny)\n", False)], note='a different but admissible guard: positive in every float type')
+SX = 'pb_bss/evaluation/sxr_module.py'
+mut('C19-pool-over-sources', 'C19', SX, "        S, I, N = [np.mean(power, axis=-1) for power in (S, I, N)]", "        S, I, N = [np.mean(power, axis=0) for power in (S, I, N)]", expect='pooled-before-ratio', props=['C19'])
+neu('N7-pool-method-form', ALLP, [(SX, "        S, I, N = [np.mean(power, axis=-1) for power in (S, I, N)]", "        S = S.mean(axis=-1)\n        I = np.mean(I, -1)\n        N = N.mean(-1)", False)])
+BG = D + 'complex_bingham.py'
+mut('C07-bingham-gap-relative-to-smallest', 'C07', BG, "        diff = np.maximum(diff, eps)\n", "        diff = np.maximum(diff, eps * np.abs(covariance_eigenvalues[..., :1]))\n", expect='absolute-gap', props=['C07', 'C03'])
+neu('N7-bingham-gap-clip', ALLP, [(BG, "        diff = np.maximum(diff, eps)\n", "        diff = np.clip(diff, eps, None)\n", False)])
 # ---- whole refactorings written by independent sub-agents (14-20 behaviour-preserving edits each, verified bit-identical on
 #      600-900 inputs per patch): every check must stay silent on each of them
 for r, what in (('R1', 'mixture_model_utils / cacgmm / cACG'), ('R2', 'cwmm / cbmm / Watson / Bingham / distribution.utils'), ('R3', 'gmm / gaussian / vMF / gcacgmm / vmfcacgmm'),
